@@ -225,7 +225,7 @@ def run_shard(ctx):
     def test(case):
         check_case(ctx, case)
 
-    runner.drive(ctx, test, ctx.n(960, 20000))
+    runner.drive(ctx, test, ctx.n(4800, 40000))
 
 
 def replay(ctx, case):
